@@ -59,9 +59,15 @@ Definition lit_float (n k : Z) : option (Z * Z) := f64_round n (10 ^ k).
 
 (** fractional literals on integer leaves are only modelled below 2^31 (beyond, Go's conversion of an
     out-of-range float is implementation specific) *)
+Definition f64_integral (m e : Z) : bool := (0 <=? e) || (m mod 2 ^ (- e) =? 0).
+(** after fix "float to integer conversion requires an integral value in range" (val/conv.go) a
+    literal with a fractional part is an error on an integer leaf; an integral one converts *)
 Definition dec_as_int (n k : Z) : xres Z :=
   match lit_float n k with
-  | Some (m, e) => let t := f64_trunc m e in if t <? 2 ^ 31 then XOk t else XUnsup
+  | Some (m, e) =>
+      if f64_integral m e
+      then let t := f64_trunc m e in if t <? 2 ^ 31 then XOk t else XUnsup
+      else XErr
   | None => XUnsup
   end.
 
@@ -167,7 +173,7 @@ Definition bytes_of_ascii (l : list Z) : list byte :=
 Definition s_true := bytes_of_ascii [116;114;117;101].
 Definition s_false := bytes_of_ascii [102;97;108;115;101].
 Definition s_yes := bytes_of_ascii [121;101;115].
-Definition s_np := bytes_of_ascii [110;112].
+Definition s_np := bytes_of_ascii [110;111].
 Definition s_1 := bytes_of_ascii [49].
 Definition s_0 := bytes_of_ascii [48].
 
